@@ -212,6 +212,37 @@ theorem accepts_phase (env : Env) : ∀ (es : List Ev) (pos : Pos) (s : St) (pos
     | runStart c => simp only [opsOf, execEv_cons]; exact ⟨ih1, ih2, ih3⟩
     | runEnd r k => simp only [opsOf, execEv_cons]; exact ⟨ih1, ih2, ih3⟩
 
+/-- acceptance of a concatenation -/
+theorem accepts_append (env : Env) : ∀ (es₁ es₂ : List Ev) (pos : Pos) (s : St),
+    accepts env pos s (es₁ ++ es₂) = (accepts env pos s es₁).bind (fun p => accepts env p (execEv env s es₁) es₂)
+  | [], es₂, pos, s => by simp [accepts, execEv]
+  | e :: es₁, es₂, pos, s => by
+    simp only [List.cons_append, accepts]
+    cases h : accept pos s e with
+    | none => simp
+    | some pos1 => simp only []; rw [accepts_append env es₁ es₂ pos1 (apply env s e), execEv_cons]
+
+theorem execEv_append (env : Env) (s : St) (es₁ es₂ : List Ev) :
+    execEv env s (es₁ ++ es₂) = execEv env (execEv env s es₁) es₂ := by
+  unfold execEv; rw [List.foldl_append]
+
+/-- a *session*: segments of events, each played by one sampler object; between two segments a new object is resumed from
+    the checkpoint file.  A resume is only possible between `run()` calls (position `idle`) and — this is what C05/C09 are
+    about, checked on the abstraction of every real resume by the replay — restores the bookkeeping state exactly. -/
+def acceptsSession (env : Env) : St → List (List Ev) → Bool
+  | _, [] => true
+  | s, seg :: segs => (accepts env .idle s seg == some .idle) && acceptsSession env (execEv env s seg) segs
+
+/-- a session is a history of `run()` calls: its concatenation is accepted, so every theorem about accepted sequences holds
+    across resumes -/
+theorem session_flatten (env : Env) : ∀ (segs : List (List Ev)) (s : St), acceptsSession env s segs = true →
+    accepts env .idle s segs.flatten = some .idle
+  | [], _, _ => rfl
+  | seg :: segs, s, h => by
+    simp only [acceptsSession, Bool.and_eq_true, beq_iff_eq] at h
+    rw [List.flatten_cons, accepts_append, h.1]
+    exact session_flatten env segs _ h.2
+
 /-- positions that can be occupied once exploration has finished -/
 def PosLate : Pos → Prop
   | .idle => True
